@@ -236,44 +236,60 @@ def writeLoc (σ : State) (l : Loc) (v : V) : Except Err State :=
 
 /-- `void Var::operator=(const Var& v)` on the Var at `t`; `src` is the value of `v` when the call starts (the
 three branches all copy from `v` before they release anything — commit 4e1a308) -/
-def assignV (σ : State) (t : Loc) (src : V) : Except Err State := do
-  let old ← readLoc σ t
-  match old, src with
-  | .str _, .str s =>
-    -- _s->resize(v._s->length()); memcpy
-    writeLoc σ t (.str s)
-  | _, _ =>
-    if isPod old then
-      -- memcpy(this, &v); copy(v)
-      let h ← copyV σ.heap src
-      writeLoc { σ with heap := h } t src
-    else
-      -- Var tmp(v); bswap(*this, tmp); ~tmp releases the old content
-      let h ← copyV σ.heap src
-      let σ1 ← writeLoc { σ with heap := h } t src
-      let h2 ← drop σ1.heap [old]
-      pure { σ1 with heap := h2 }
+def assignV (σ : State) (t : Loc) (src : V) : Except Err State :=
+  match readLoc σ t with
+  | .error e => .error e
+  | .ok old =>
+    match old, src with
+    | .str _, .str s =>
+      -- _s->resize(v._s->length()); memcpy
+      writeLoc σ t (.str s)
+    | _, _ =>
+      -- pod target: memcpy(this, &v); copy(v).   non-pod: Var tmp(v); bswap(*this, tmp); ~tmp releases the old content
+      match copyV σ.heap src with
+      | .error e => .error e
+      | .ok h =>
+        match writeLoc { σ with heap := h } t src with
+        | .error e => .error e
+        | .ok σ1 =>
+          if isPod old then .ok σ1
+          else
+            match drop σ1.heap [old] with
+            | .error e => .error e
+            | .ok h2 => .ok { σ1 with heap := h2 }
+
+/-- `free()` of the Var at `t` followed by a new tag and payload `nv`: the old container (if any) is released and the
+Var holds `nv`.  (The C++ releases first and writes the new tag afterwards; the model writes first so that the
+released value is not also counted as stored — the same final state whenever `*this` survives its own `free()`,
+i.e. whenever the Var is not inside the structure it holds.) -/
+def storeV (σ : State) (t : Loc) (nv : V) : Except Err State :=
+  match readLoc σ t with
+  | .error e => .error e
+  | .ok old =>
+    match writeLoc σ t nv with
+    | .error e => .error e
+    | .ok σ1 =>
+      match drop σ1.heap [old] with
+      | .error e => .error e
+      | .ok h => .ok { σ1 with heap := h }
 
 /-- the typed assignments `operator=(int|double|float|unsigned|Long|bool)`: `if(_type != NONE) free();` then the
 new tag and payload -/
-def assignScalar (σ : State) (t : Loc) (nv : V) : Except Err State := do
-  let old ← readLoc σ t
-  let h ← drop σ.heap [old]
-  writeLoc { σ with heap := h } t nv
+def assignScalar (σ : State) (t : Loc) (nv : V) : Except Err State := storeV σ t nv
 
 /-- `operator=(const String&)` and `operator=(const char*)` (same effect): in place when the Var already is a
 STRING (it stays a STRING whatever the new length) or an SSTRING and the text still fits; otherwise `free()` and a
 new SSTRING (< 8 bytes) or STRING -/
-def assignString (σ : State) (t : Loc) (s : Bytes) : Except Err State := do
-  let old ← readLoc σ t
-  match old with
-  | .str _ => writeLoc σ t (.str s)
-  | .sstr _ =>
-    if s.length < 8 then writeLoc σ t (.sstr s)
-    else writeLoc σ t (.str s)          -- free() of an SSTRING releases nothing
-  | _ =>
-    let h ← drop σ.heap [old]
-    writeLoc { σ with heap := h } t (if s.length < 8 then .sstr s else .str s)
+def assignString (σ : State) (t : Loc) (s : Bytes) : Except Err State :=
+  match readLoc σ t with
+  | .error e => .error e
+  | .ok old =>
+    match old with
+    | .str _ => writeLoc σ t (.str s)
+    | .sstr _ =>
+      if s.length < 8 then writeLoc σ t (.sstr s)
+      else writeLoc σ t (.str s)          -- free() of an SSTRING releases nothing
+    | _ => storeV σ t (if s.length < 8 then .sstr s else .str s)
 
 /-! ## constructors -/
 
